@@ -566,6 +566,7 @@ def finish(prop, tier, seed, mod, results, wall):
             'second_engine_crosshair': _count([x for r in results for x in r.get('xhair', [])]),
             'second_solver_rechecks': _sum_dicts([r.get('second_solver', {}) for r in results]),
             'fork_mode_twins_agree': len([r for r in results if r.get('forkmode') and r['verdict'] == 'holds']),
+            'plateau_sweep_runs': '%d plain-float runs on repeating small-integer data over %d obligations (auxiliary guard for identity-based behaviour; not the deciding step)' % (sum(r.get('sweep_runs', 0) for r in results), len([r for r in results if r.get('sweep_runs')])),
             'obligations_outside_claim_arithmetic_domain': len([r for r in results if r['verdict'] == 'outside']),
             'assertions_decided': tot('asserts'),
             'solver_queries': tot('queries'), 'solver_time_s': round(tot('solver_s'), 2),
